@@ -4,6 +4,7 @@ import (
 	"bytes"
 	"encoding/hex"
 	"fmt"
+	"sort"
 	"strings"
 	"sync"
 	"time"
@@ -282,6 +283,54 @@ func c20Frames(c *core.Collector, x *Ctx) {
 			prev[k] = int(rf.Serial)
 		}
 		c.Count("fleet_terminals_from_one_option", 3)
+	}
+	// simulators built in every other way the package offers — no option at all (the built-in template header), separate but
+	// equal option values, a custom header object per simulator — generating frames in turn: each numbers its own frames
+	{
+		mk := map[string]func(k int) *terminal.Terminal{
+			"no options (default header)": func(k int) *terminal.Terminal { return terminal.New() },
+			"equal option values built separately": func(k int) *terminal.Terminal {
+				return terminal.New(terminal.WithHeader(c20Versions[1], "13800007777"))
+			},
+			"one option slice reused": nil,
+		}
+		shared := []terminal.Option{terminal.WithHeader(c20Versions[len(c20Versions)-1], "13800008888")}
+		mk["one option slice reused"] = func(k int) *terminal.Terminal { return terminal.New(shared...) }
+		var kinds []string
+		for kd := range mk {
+			kinds = append(kinds, kd)
+		}
+		sort.Strings(kinds)
+		for _, kd := range kinds {
+			var fleet []*terminal.Terminal
+			for k := 0; k < 3; k++ {
+				fleet = append(fleet, mk[kd](k))
+			}
+			prev := []int{-1, -1, -1}
+			for step := 0; step < 90; step++ {
+				k := step % 3
+				if step%7 == 6 {
+					k = (step / 7) % 3
+				}
+				var f []byte
+				if step%5 == 4 {
+					f = fleet[k].CreateCommandData(consts.T0200LocationReport, make([]byte, 28))
+				} else {
+					f = fleet[k].CreateDefaultCommandData(c20Cmds[step%len(c20Cmds)])
+				}
+				c.Eval()
+				rf, ok := ref.Validate(f)
+				if f == nil || !ok {
+					continue
+				}
+				if prev[k] >= 0 && int(rf.Serial) != (prev[k]+1)%65536 {
+					c.Violate("frame|simulators generating frames in turn do not number their frames independently", fmt.Sprintf("%s: simulator %d: previous %d, now %d", kd, k, prev[k], rf.Serial), map[string]any{"built": kd, "terminal": k})
+					break
+				}
+				prev[k] = int(rf.Serial)
+			}
+			c.Count("simulators_generating_in_turn", 3)
+		}
 	}
 	// custom bodies + serial wrap
 	for vi, ver := range c20Versions {
